@@ -63,14 +63,14 @@ collect_obs(2, 6, "quick", 1200, True)
 collect_obs(2, 9, "thorough", 1200, True)
 # collect_obs(3, 6, ...): a 3-byte buffer from an arbitrary pre-state does not finish within 50 min (measured twice); not registered
 
-for nw, tier, to in ((2, "quick", 600), (3, "thorough", 3000), (4, "thorough", 3000)):
+for nw, tier, to in ((2, "quick", 900), (4, "quick", 1500), (3, "thorough", 3000), (5, "thorough", 3000)):
     add("scan_nw%d" % nw, "h_scan.c", "h_scan", {"C14": tier}, defines=["-DNW=%d" % nw],
-        cbmc=["--unwind", "70", "--unwindset", "scan.0:34,scan.1:2,scan.2:%d" % (nw + 2)], backend="kissat",
-        timeout=to, mem_gb=8, ignore_unwind=["scan.unwind.1"], functions=SCAN_FUNCS,
+        static_unwind=["scan.1:2"],
+        cbmc=["--unwind", str(32 * nw + 40), "--unwindset", "scan.0:34,scan.1:34,scan.2:%d" % (nw + 2)], backend="kissat",
+        timeout=to, mem_gb=8, functions=SCAN_FUNCS,
         witnesses=["scan_found", "scan_more", "scan_found_straddling_live_and_words"] + (["scan_found_after_skip"] if nw >= 4 else []),
-        bounds="bit stream of <=32 live bits + %d symbolic 32-bit words, any skip; the `goto again` edge of scan() is unwound "
-               "once: a second traversal is impossible by lemma dfa_big (big_dfa = 8 x mini_dfa with absorbing accept), which is "
-               "discharged in the same run, so its unwinding assertion is replaced by that lemma" % nw,
+        bounds="bit stream of <=32 live bits + %d symbolic 32-bit words, any skip; the `goto again` loop of scan() is unwound statically (goto-instrument) to two copies "
+               "and the assertion that a third traversal is impossible is PROVED in the same query (it follows from big_dfa = 8 x mini_dfa)" % nw,
         assumptions=["struct bitstream invariant: live<=32 on entry and bits below the live ones are zero",
                      "scan() may start matching anywhere up to the skip point rounded up to a word boundary (what do_scan relies on)"],
         outside=["input blocks longer than %d words (the scanner state is a 48-state automaton, longer blocks only repeat the word loop)" % nw])
